@@ -56,6 +56,14 @@ def canon(o):
     return {"repr": type(o).__name__}
 
 
+def run_digests(ctx, ch, vio, disc):
+    """[full digest, hash-seed-robust digest] of one run's event log."""
+    v = vio.as_dict() if vio else None
+    robust = digest_of([ctx.log, ch.record, v["sig"] if v else None, disc])
+    full = digest_of([ctx.log, ctx.log_sched, ch.record, v, disc])
+    return [full, robust]
+
+
 def digest_of(o):
     return hashlib.sha256(json.dumps(canon(o), sort_keys=True, default=str).encode()).hexdigest()[:16]
 
@@ -77,8 +85,20 @@ def jsonable(o):
         r = [jsonable(x) for x in o]
         return {"tuple": r} if isinstance(o, tuple) else r
     if isinstance(o, BaseException):
-        return {"exception": type(o).__name__, "msg": str(o)[:200]}
-    return repr(o)[:200]
+        return {"exception": type(o).__name__, "msg": _no_addr(str(o))[:200]}
+    return _no_addr(repr(o))[:200]
+
+
+_ADDR = None
+
+
+def _no_addr(s):
+    """Memory addresses in reprs are the classic determinism breaker."""
+    global _ADDR
+    if _ADDR is None:
+        import re
+        _ADDR = re.compile(r"0x[0-9a-fA-F]{6,}")
+    return _ADDR.sub("0x?", s)
 
 
 class Violation(Exception):
@@ -120,6 +140,7 @@ class RunCtx:
         self.steps = 0
         self.keys = []
         self.log = []       # event log for the determinism digest
+        self.log_sched = [] # schedule-dependent part (interleaving signature, step counts)
         self.sample = None
         self.known = []     # known findings hit (sig)
 
@@ -144,6 +165,13 @@ class RunCtx:
 
     def ev(self, *parts):
         self.log.append(parts)
+
+    def ev_sched(self, *parts):
+        """Events that depend on the exact interleaving.  fastavro itself iterates over a
+        set in parse_field, so under another PYTHONHASHSEED the same scheduler seed maps to
+        a (slightly) different interleaving: these events are compared only between
+        interpreters with the same hash seed."""
+        self.log_sched.append(parts)
 
 
 def load_known():
@@ -180,6 +208,10 @@ def execute(pid, tier, seed=None, recorded=None):
     mod = prop_module(pid)
     ch = Choices(seed=seed, recorded=recorded)
     ctx = RunCtx(tier)
+    # os.urandom (default sync markers) and uuid.uuid4 behind a seeded seam for EVERY run;
+    # a constant so that replay from a recorded choice list sees the same stream
+    import env
+    env.seed_entropy(20261001)
     vio = None
     disc = None
     try:
@@ -221,7 +253,7 @@ def _work(pid, tier, verif_seed, start, count, known_sigs, want_digests, deadlin
             for s in ctx.known:
                 agg["known"][s] = agg["known"].get(s, 0) + 1
             if i in want_digests:
-                agg["digests"][i] = digest_of([ctx.log, ch.record, vio.as_dict() if vio else None, disc])
+                agg["digests"][i] = run_digests(ctx, ch, vio, disc)
             if ctx.sample is not None and len(agg["samples"]) < 2:
                 agg["samples"].append(jsonable(ctx.sample))
             if disc:
@@ -332,23 +364,31 @@ def replay(pid, path):
 
 # ------------------------------------------------------------------------------- driver
 def determinism_recheck(pid, tier, verif_seed, digests):
-    """Re-execute the sampled run indices in a fresh interpreter under another hash
-    seed and compare event-log digests."""
+    """Re-execute the sampled run indices in two fresh interpreters: one with the same
+    PYTHONHASHSEED (full event-log digest must match) and one with another hash seed (the
+    hash-seed-robust digest must match)."""
     if not digests:
         return {"seeds": 0, "mismatches": 0}
     idx = sorted(digests)
-    env = dict(os.environ)
-    env["PYTHONHASHSEED"] = "12345"
-    env["VERIF_SEED"] = str(verif_seed)
-    cmd = [sys.executable, os.path.join(os.path.dirname(__file__), "main.py"), pid,
-           "--tier", tier, "--digest-runs", ",".join(map(str, idx))]
-    out = subprocess.run(cmd, env=env, capture_output=True, text=True, timeout=600)
-    if out.returncode != 0:
-        return {"seeds": len(idx), "mismatches": -1, "error": out.stderr[-2000:]}
-    got = json.loads(out.stdout.strip().splitlines()[-1])
-    mism = [i for i in idx if got.get(str(i)) != digests[i]]
-    return {"seeds": len(idx), "mismatches": len(mism), "indices": mism[:5],
-            "other_hashseed": 12345}
+    res = {"seeds": len(idx), "mismatches": 0}
+    for label, hs, col in (("same_hashseed_fresh_interpreter", os.environ.get("PYTHONHASHSEED", "0"), 0),
+                           ("other_hashseed_12345", "12345", 1)):
+        env = dict(os.environ)
+        env["PYTHONHASHSEED"] = hs
+        env["VERIF_SEED"] = str(verif_seed)
+        cmd = [sys.executable, os.path.join(os.path.dirname(__file__), "main.py"), pid,
+               "--tier", tier, "--digest-runs", ",".join(map(str, idx))]
+        out = subprocess.run(cmd, env=env, capture_output=True, text=True, timeout=900)
+        if out.returncode != 0:
+            res["mismatches"] = -1
+            res["error"] = out.stderr[-2000:]
+            return res
+        got = json.loads(out.stdout.strip().splitlines()[-1])
+        mism = [i for i in idx if (got.get(str(i)) or [None, None])[col] != digests[i][col]]
+        res[label] = {"compared": "full event log" if col == 0 else "event log without interleaving-dependent entries",
+                      "mismatches": len(mism), "indices": mism[:5]}
+        res["mismatches"] += len(mism)
+    return res
 
 
 def digest_runs(pid, tier, verif_seed, idx):
@@ -356,7 +396,7 @@ def digest_runs(pid, tier, verif_seed, idx):
     for i in idx:
         rs = choices_mod.run_seed(verif_seed, pid, i)
         ctx, vio, disc, ch = execute(pid, tier, seed=rs)
-        out[str(i)] = digest_of([ctx.log, ch.record, vio.as_dict() if vio else None, disc])
+        out[str(i)] = run_digests(ctx, ch, vio, disc)
     print(json.dumps(out))
     return 0
 
